@@ -76,6 +76,36 @@ pub fn panic_site(msg: &str) -> String {
     file.to_string()
 }
 
+pub fn panic_in_harness(msg: &str) -> bool {
+    let loc = msg.rsplit(" @ ").next().unwrap_or("");
+    ["harness/src/", "simcore/src/", "daqmodel/src/", "shims/rayon-core/"].iter().any(|p| loc.starts_with(p) || loc.contains(&format!("/verif/sim/{p}")) || loc.contains(&format!("/verif/{p}")))
+}
+
+/// Run a scenario on a thread with the stack an ordinary caller has (see the checks that use
+/// it): a stack overflow of the code under test aborts the process as it would there. A panic
+/// that escapes `f` is classified like in `run_guarded`.
+pub fn run_on_stack(stack_bytes: usize, check_id: &str, f: impl FnOnce() -> Outcome + Send) -> Outcome {
+    let r = std::thread::scope(|sc| match std::thread::Builder::new().stack_size(stack_bytes).spawn_scoped(sc, || catch(f)) {
+        Ok(h) => h.join(),
+        Err(e) => harness_error(&format!("cannot spawn the runner thread: {e}")),
+    });
+    match r {
+        Ok(Ok(o)) => o,
+        Ok(Err(msg)) if panic_in_harness(&msg) => harness_error(&format!("the harness itself panicked: {msg}")),
+        Ok(Err(msg)) => Outcome {
+            log_hash: 0,
+            nontrivial: true,
+            violations: vec![Violation {
+                invariant: format!("{check_id}.no-panic"),
+                signature: format!("panic:{}", panic_site(&msg)),
+                detail: format!("panic escaped the runner: {msg}"),
+                narrowed: None,
+            }],
+        },
+        Err(_) => harness_error("the runner thread died without a result"),
+    }
+}
+
 /// Self-test of the supervisor (never active unless VERIF_SELFTEST is set): the scenario whose
 /// JSON hash equals the poison value aborts the process or hangs, as code under test might.
 fn selftest_poison(scenario: &Value) {
@@ -99,6 +129,9 @@ fn run_guarded(check: &dyn Check, scenario: &Value, stats: &mut Stats) -> Outcom
     selftest_poison(scenario);
     match catch(|| check.run(scenario, stats)) {
         Ok(o) => o,
+        // a panic raised by the harness' own code (location inside /verif's crates) is a defect or
+        // an environment problem of the harness, never a finding about the code under test
+        Err(msg) if panic_in_harness(&msg) => harness_error(&format!("the harness itself panicked: {msg}")),
         Err(msg) => Outcome {
             log_hash: 0,
             nontrivial: true,
@@ -279,6 +312,8 @@ fn eval_isolated_after(check: &dyn Check, scenario: &Value, history: Option<&His
                 let viols: Vec<Violation> =
                     serde_json::from_value(v["violations"].clone()).unwrap_or_default();
                 (viols, v["log_hash"].as_u64().unwrap_or(0))
+            } else if s.code() == Some(HARNESS_ERROR_EXIT) {
+                harness_error("an isolated re-evaluation reported a failure of the harness itself")
             } else {
                 (
                     vec![Violation {
@@ -422,12 +457,44 @@ fn history_search(
     Some((History { seed, tier: tier.name().to_string(), indices: cur }, best.0, best.1))
 }
 
+/// Exit status of a worker (or of any harness process) that could not do ITS OWN work - scratch
+/// directory full, file cannot be written, helper cannot be spawned. The supervisor turns it
+/// into exit 2 (harness error) and never into a violation.
+pub const HARNESS_ERROR_EXIT: i32 = 2;
+
+/// Report a failure of the harness itself and leave with `HARNESS_ERROR_EXIT`.
+pub fn harness_error(what: &str) -> ! {
+    eprintln!("harness error: {what}");
+    std::process::exit(HARNESS_ERROR_EXIT)
+}
+
+/// Base of all scratch directories: /dev/shm when it exists and has at least 4 GiB free
+/// (the thorough tiers hold a few hundred MiB of simulated run files at a time), else
+/// <verif>/work. Decided once per process.
+pub fn scratch_base() -> PathBuf {
+    static BASE: std::sync::OnceLock<PathBuf> = std::sync::OnceLock::new();
+    BASE.get_or_init(|| {
+        let shm = Path::new("/dev/shm");
+        let roomy = shm.is_dir()
+            && Command::new("df")
+                .args(["--output=avail", "-B1", "/dev/shm"])
+                .output()
+                .ok()
+                .and_then(|o| String::from_utf8_lossy(&o.stdout).lines().nth(1).and_then(|l| l.trim().parse::<u64>().ok()))
+                .map_or(false, |free| free >= 4 << 30);
+        if roomy {
+            shm.to_path_buf()
+        } else {
+            let d = verif_dir().join("work");
+            let _ = std::fs::create_dir_all(&d);
+            d
+        }
+    })
+    .clone()
+}
+
 pub fn work_dir() -> PathBuf {
-    let base = if Path::new("/dev/shm").is_dir() {
-        PathBuf::from("/dev/shm")
-    } else {
-        verif_dir().join("work")
-    };
+    let base = scratch_base();
     let d = base.join(format!("verif-{}", std::process::id()));
     let _ = std::fs::create_dir_all(&d);
     d
@@ -613,6 +680,15 @@ fn supervise(check: &'static dyn Check, tier: Tier) -> i32 {
             match child.try_wait().unwrap() {
                 Some(st) => {
                     done[*shard as usize] = true;
+                    if st.code() == Some(HARNESS_ERROR_EXIT) {
+                        eprintln!("harness error: worker {shard} reported a failure of the harness itself (see above)");
+                        for (_, c, ..) in children.iter_mut() {
+                            let _ = c.kill();
+                            let _ = c.wait();
+                        }
+                        let _ = std::fs::remove_dir_all(&dir);
+                        return 2;
+                    }
                     if !st.success() {
                         let wal = std::fs::read(dir.join(format!("wal-{shard}.json")))
                             .ok()
